@@ -161,6 +161,21 @@ theorem decode_encode_data_empty {bnd : Bytes} (hb : Multipart.BoundaryOk bnd) (
   rcases Multipart.dataPhase_true_sound hb chunks buf [] [] f rest hbuf hspec with ⟨R', h1, h2⟩
   exact ⟨R', by simpa using h1, h2⟩
 
+/-- **decode_encode (DATA phase), every chunking, every line-break convention**: the same for bodies
+framed with bare LF or bare CR (`nl`), under the side condition `PayloadOkNl` (no line of the payload
+starts with `--boundary`; with bare LF the payload has no CR, with bare CR no LF). -/
+theorem decode_encode_data_nl {nl : Multipart.Nl} {bnd : Bytes} (hb : Multipart.BoundaryOk bnd)
+    (payload tail : Bytes) {f : Bool} {rest : Bytes} (hp : Multipart.PayloadOkNl nl bnd payload)
+    (ht : Multipart.AfterDelimNl nl tail f rest)
+    (buf : Bytes) (chunks : List Bytes) (hbuf : 0 < Multipart.lbLen buf)
+    (hjoin : buf ++ chunks.flatten = nl.bytes ++ payload ++ (nl.bytes ++ (Multipart.delim bnd ++ tail))) :
+    ∃ R', Multipart.dataPhase bnd true buf [] chunks = .ok (payload, some (f, R')) ∧
+      (f = false → R' = rest ∨ R' = 10 :: rest) := by
+  have hspec := Multipart.dataSpec_encoded_nl hb payload tail hp ht
+  rw [← hjoin] at hspec
+  rcases Multipart.dataPhase_true_sound hb chunks buf [] payload f rest hbuf hspec with ⟨R', h1, h2⟩
+  exact ⟨R', by simpa using h1, h2⟩
+
 /-- non-vacuity: CRLF runs, a trailing CR, a leading LF, `--` and a one-byte-off copy of the
 boundary are admissible payload -/
 example : Multipart.PayloadOk (Multipart.str "bound")
@@ -169,7 +184,7 @@ example : Multipart.PayloadOk (Multipart.str "bound")
   decide +kernel
 
 /-- **decode_encode.** For every boundary without CR / LF and every list of parts satisfying the
-decidable predicate `ValidPart` (a name; names / filenames free of `"`, `\`, `%22`, CR, LF — any
+decidable predicate `ValidPart .crlf` (the encoder writes CRLF line breaks; a name; names / filenames free of `"`, `\`, `%22`, CR, LF — any
 other Unicode text; `isFile` iff there is a filename; extra headers that fit on a header line and
 are not Content-Disposition; a payload none of whose lines starts with `--boundary` — CR/LF runs,
 `--`, near-copies of the boundary, arbitrary binary are all allowed; any mix and order of fields
@@ -179,13 +194,13 @@ part Field/File + Data, Epilogue(b"")) succeeds, and decoding the result with `M
 raises nothing and returns exactly the parts, in order, with byte-exact payloads — each part's headers
 being the Content-Disposition header the encoder wrote followed by the part's own headers. -/
 theorem decode_encode {bnd : Bytes} (hb : Multipart.BoundaryOk bnd) (parts : List Multipart.Part)
-    (hv : ∀ p ∈ parts, Multipart.ValidPart bnd p) :
+    (hv : ∀ p ∈ parts, Multipart.ValidPart .crlf bnd p) :
     ∃ body, Multipart.encodeAll bnd parts = .ok body ∧
       (Multipart.decodeChunks bnd none none [body]).err = none ∧
       Multipart.partsOf (Multipart.decodeChunks bnd none none [body]).events =
         parts.map Multipart.decodedPart :=
-  ⟨Multipart.encBody bnd Multipart.stdEp parts, Multipart.encodeAll_eq parts hv,
-    Multipart.decode_encode_lemma hb parts hv⟩
+  ⟨Multipart.encBody .crlf bnd Multipart.stdEp parts, Multipart.encodeAll_eq parts hv,
+    Multipart.decode_encode_lemma (nl := .crlf) hb parts hv⟩
 
 /-- `decodedPart` only adds the Content-Disposition header in front -/
 theorem decodedPart_eq (p : Multipart.Part) :
@@ -199,12 +214,12 @@ theorem decodedPart_eq (p : Multipart.Part) :
 a `;` in its filename, an extra header and a binary payload, are valid for boundary `bound` -/
 example :
     Multipart.BoundaryOk (Multipart.str "bound") ∧
-    Multipart.ValidPart (Multipart.str "bound")
+    Multipart.ValidPart .crlf (Multipart.str "bound")
       ⟨false, some "é name".toList, none, [], Multipart.str "\r\n\r\n--boun\r\n--bounX\r"⟩ ∧
-    Multipart.ValidPart (Multipart.str "bound")
+    Multipart.ValidPart .crlf (Multipart.str "bound")
       ⟨true, some "f".toList, some "a;b.png".toList, [("Content-Type".toList, "image/png".toList)],
         [0, 255, 13, 10, 45, 45]⟩ ∧
-    ¬ Multipart.ValidPart (Multipart.str "bound")
+    ¬ Multipart.ValidPart .crlf (Multipart.str "bound")
       ⟨false, some "q\"q".toList, none, [], []⟩ := by
   decide +kernel
 
@@ -212,14 +227,14 @@ example :
 every list of chunks whose concatenation is the encoder's output, decoding chunk by chunk returns
 exactly the encoded parts (together with C01: the result does not depend on the chunking). -/
 theorem decode_encode_chunked {bnd : Bytes} (hb : Multipart.BoundaryOk bnd) (parts : List Multipart.Part)
-    (hv : ∀ p ∈ parts, Multipart.ValidPart bnd p) (chunks : List Bytes) :
+    (hv : ∀ p ∈ parts, Multipart.ValidPart .crlf bnd p) (chunks : List Bytes) :
     ∃ body, Multipart.encodeAll bnd parts = .ok body ∧
       (chunks.flatten = body →
         (Multipart.decodeChunks bnd none none chunks).err = none ∧
         Multipart.partsOf (Multipart.decodeChunks bnd none none chunks).events =
           parts.map Multipart.decodedPart) :=
-  ⟨Multipart.encBody bnd Multipart.stdEp parts, Multipart.encodeAll_eq parts hv,
-    fun hj => Multipart.decode_chunks_full_lemma (ep := Multipart.stdEp) hb (Multipart.preOk_trivial bnd) parts hv chunks
+  ⟨Multipart.encBody .crlf bnd Multipart.stdEp parts, Multipart.encodeAll_eq parts hv,
+    fun hj => Multipart.decode_chunks_full_lemma (nl := .crlf) (ep := Multipart.stdEp) hb (Multipart.preOk_trivial .crlf bnd) parts hv chunks
       (by rw [hj]; simp [Multipart.bodyOf])⟩
 
 /-- **decode_encode_events** (F02a, repaired by d57c0c6). The payload of a part may reach the encoder
@@ -228,7 +243,7 @@ an empty first chunk: the encoder writes the same bytes as for one Data event pe
 chunking on the encoder side *and* every chunking on the decoder side the parts come back exactly. -/
 theorem decode_encode_events {bnd : Bytes} (hb : Multipart.BoundaryOk bnd)
     (cs : List Multipart.ChunkedPart)
-    (hv : ∀ c ∈ cs, Multipart.ValidPart bnd c.1 ∧ c.2.1.flatten ++ c.2.2 = c.1.payload)
+    (hv : ∀ c ∈ cs, Multipart.ValidPart .crlf bnd c.1 ∧ c.2.1.flatten ++ c.2.2 = c.1.payload)
     (chunks : List Bytes) :
     ∃ body,
       Multipart.encodeEvents bnd .preamble
@@ -237,8 +252,8 @@ theorem decode_encode_events {bnd : Bytes} (hb : Multipart.BoundaryOk bnd)
         (Multipart.decodeChunks bnd none none chunks).err = none ∧
         Multipart.partsOf (Multipart.decodeChunks bnd none none chunks).events =
           (cs.map (·.1)).map Multipart.decodedPart) := by
-  refine ⟨Multipart.encBody bnd Multipart.stdEp (cs.map (·.1)), Multipart.encodeEvents_chunked cs hv, fun hj => ?_⟩
-  exact Multipart.decode_chunks_full_lemma (ep := Multipart.stdEp) hb (Multipart.preOk_trivial bnd) _
+  refine ⟨Multipart.encBody .crlf bnd Multipart.stdEp (cs.map (·.1)), Multipart.encodeEvents_chunked cs hv, fun hj => ?_⟩
+  exact Multipart.decode_chunks_full_lemma (nl := .crlf) (ep := Multipart.stdEp) hb (Multipart.preOk_trivial .crlf bnd) _
     (by intro p hp; rcases List.mem_map.1 hp with ⟨c, hc, rfl⟩; exact (hv c hc).1) chunks
     (by rw [hj]; simp [Multipart.bodyOf])
 
